@@ -384,6 +384,24 @@ def scenario_comment_opener(exe, workroot):
     return False, "'/' stays apart from a following '*' or '/'"
 
 
+def scenario_custom_keywords_roundtrip(exe, workroot):
+    """C15: custom types, set keywords and macro-* words survive --update-config + reload"""
+    d = _tmp(workroot)
+    cfg = _cfg(d, 'type MYTYPE\nmacro-open BEGIN_X\nmacro-close END_X\nmacro-else ELSE_X\nset FOR foreach\n')
+    rc, out, err = run(exe, ['-c', cfg, '--update-config'])
+    cfg2 = _cfg(d, out.decode(errors='replace'), 'c2.cfg')
+    rc2, out2, err2 = run(exe, ['-c', cfg2, '--update-config'])
+    e2 = err2.decode(errors='replace')
+    if 'unknown option' in e2:
+        return True, 'the config written by --update-config is not accepted when loaded again: %s' % e2.strip()[-160:]
+    for w in (b'MYTYPE', b'BEGIN_X', b'END_X', b'ELSE_X', b'foreach'):
+        if w not in out2:
+            return True, 'the custom keyword %r is lost after --update-config + reload' % w
+    if out != out2:
+        return True, '--update-config is not idempotent for custom keywords'
+    return False, 'custom keywords round-trip'
+
+
 def scenario_lang_leak(exe, workroot):
     d = _tmp(workroot)
     a, b = os.path.join(d, 'A.c'), os.path.join(d, 'B.c')
